@@ -213,6 +213,24 @@ pub fn schema_json<T: schemars::JsonSchema + ?Sized>() -> Value {
 // ------------------------------------------------------------------ Remote (C20, C10)
 
 /// Everything observable about `Remote<T>` for one address string.
+/// A struct that embeds a handle with `#[serde(flatten)]`: the `addr` member sits next to the struct's own members.
+#[derive(Serialize)]
+#[serde(bound = "R: Serialize")]
+struct FlatHolderS<R> {
+    n: u32,
+    #[serde(flatten)]
+    r: R,
+    tail: String,
+}
+#[derive(serde::Deserialize)]
+#[serde(bound = "R: DeserializeOwned")]
+struct FlatHolderD<R> {
+    n: u32,
+    #[serde(flatten)]
+    r: R,
+    tail: String,
+}
+
 pub fn remote_probe<T: ?Sized>(a: &Value) -> Value
 where
     for<'x> sylvia::types::Remote<'x, T>: Serialize + schemars::JsonSchema,
@@ -228,6 +246,15 @@ where
         Ok(r) => json!({"ok": {"as_ref": AsRef::<Addr>::as_ref(&r).as_str(), "re": crate::j(&r)}}),
         Err(e) => json!({"err": e.to_string()}),
     };
+    let flat_enc = cosmwasm_std::to_json_string(&FlatHolderS { n: 7, r: Remote::<'static, T>::new(addr.clone()), tail: "t".to_owned() })
+        .unwrap_or_else(|e| format!("ERR {e}"));
+    let flat_dec = match a["flat_text"].as_str() {
+        Some(t) => match from_json::<FlatHolderD<Remote<'static, T>>>(t.as_bytes()) {
+            Ok(h) => json!({"ok": {"as_ref": AsRef::<Addr>::as_ref(&h.r).as_str(), "n": h.n, "tail": h.tail}}),
+            Err(e) => json!({"err": e.to_string()}),
+        },
+        None => Value::Null,
+    };
     let schema = schemars::schema_for!(Remote<'static, T>);
     json!({"res": {"ok": {
         "owned": crate::j(&owned),
@@ -235,6 +262,8 @@ where
         "owned_as_ref": AsRef::<Addr>::as_ref(&owned).as_str(),
         "borrowed_as_ref": AsRef::<Addr>::as_ref(&borrowed).as_str(),
         "decoded": dec,
+        "flat_encoded": flat_enc,
+        "flat_decoded": flat_dec,
         "schema_name": <Remote<'static, T> as schemars::JsonSchema>::schema_name(),
         "schema": serde_json::to_value(&schema).unwrap(),
         "update_admin": serde_json::to_value(owned.update_admin(a["new_admin"].as_str().unwrap_or("adm"))).unwrap(),
